@@ -196,7 +196,8 @@ pub fn run(tier: Tier) -> i32 {
         // ... and with a capturer on both sides of the pushed pawn (one of them pinned, the other not)
         plan.families.push((Box::new(crate::universe::EpTwoFamily { extra: crate::universe::Extra::EnemySlider, pre_push: false }), 0));
     }
-    let plan = with_line_geometry_for(plan, true, 0, true);
+    let mut plan = with_line_geometry_for(plan, true, 0, true);
+    plan.families.push((Box::new(crate::universe::ep_two_sliders_family(tier == Tier::Quick)), 0));
     run_plan(&run, &oracle, &plan);
     // complete 64x64x5 legality sweep: every root, the children of every 4th root (thorough: everything
     // within 2 plies of every root), plus every 64th (quick: 2048th) member of the en-passant / castling / promotion families
